@@ -44,6 +44,10 @@ register("C04", "fault_enumeration", "E4 device", "exhaustive enumeration of dam
          "For each of 13 (thorough ~90) small base archives, every single-bit flip, every truncation length and the other exhaustive damage classes are opened, extracted and integrity-tested by the real code; the oracle is the pristine member map and consistency of test()/testzip() with extraction. Exhaustive per base, so no damaged position is left unexamined for these bases.",
          "Bases are small (200-600 bytes) and offered as streams (sequential extraction path). Hangs are counted here and judged by C05.", "DESIGN.md section 5 C04")
 
+register("C10", "exploration", "E1 explore", "bounded exhaustive enumeration of archives (configurations, append sessions, reference layouts), listings compared with extraction and an independent structural parse",
+         "Every archive of the shared enumerations is opened by path; getnames/namelist/list/files, sizes, CRCs, getinfo (with and without trailing slash, absent names), archiveinfo (total, blocks, solid, method names, size) and needs_password are compared with the bytes both readers agree on and with the folder/coder structure seen by ref7z.",
+         "Archives on which py7zr's extraction and ref7z disagree are counted and left to C06/C08 (the listing question is undefined there).", "DESIGN.md section 5 C10")
+
 NOT_YET = {}
 
 
